@@ -3529,8 +3529,9 @@ class LazyStackedTensorDict(TensorDictBase):
                 start = 0
                 for s in split_size:
                     if s == 0:
+                        # batch_size is the batch size of the (absent) members
                         batch_size = list(self._batch_size)
-                        batch_size[self.stack_dim] = 0
+                        del batch_size[self.stack_dim]
                         yield LazyStackedTensorDict(
                             batch_size=batch_size,
                             device=self.device,
